@@ -31,11 +31,19 @@ type c04Struct struct{ F []any }
 type c04Cell struct{ V any }
 
 type c04Ptr struct {
-	Cell *c04Cell
-	Path []int
+	Cell  *c04Cell
+	Path  []int
+	Names []string // "pkgpath.Type.Field" of each step of Path (for symbolic struct values)
 }
 
 type c04Poison struct{ Why string }
+
+// c04SymV is a symbolic value: a term over the symbolic arguments of the
+// evaluation (see c04term.go). Operations on symbolic values build larger
+// terms; the Resolve hook of the evaluator may map a term to a concrete value
+// (this is how boolean atoms get their truth-table assignment wherever the
+// atom is computed — in the function itself or in a helper).
+type c04SymV struct{ T *c04T }
 
 type c04Nil struct{}
 
@@ -48,8 +56,12 @@ type c04Eval struct {
 	Override map[ssa.Value]any
 	// InModule tells whether a callee may be entered.
 	InModule func(*ssa.Function) bool
-	steps    int
-	depth    int
+	// Resolve may give a symbolic term a concrete value.
+	Resolve func(*c04T) (any, bool)
+	// Outer gives the value of an SSA value defined outside an evaluated region.
+	Outer func(ssa.Value) (any, bool)
+	steps int
+	depth int
 }
 
 type c04EvalError struct{ msg string }
@@ -175,8 +187,49 @@ func c04ConstVal(c *ssa.Const) any {
 }
 
 type c04Frame struct {
-	fn   *ssa.Function
-	vals map[ssa.Value]any
+	fn     *ssa.Function
+	vals   map[ssa.Value]any
+	region bool
+}
+
+// c04ValTerm converts an evaluator value to a term (concrete scalars become constants).
+func c04ValTerm(v any) (*c04T, bool) {
+	switch x := v.(type) {
+	case c04SymV:
+		return x.T, true
+	case c04Sym:
+		return &c04T{Op: "leaf", Name: x.Name}, true
+	case c04Int:
+		if x.Signed {
+			return c04KT(x.signedVal()), true
+		}
+		return c04KT(int64(x.V)), true
+	case bool:
+		return &c04T{Op: "const", Name: fmt.Sprint(x)}, true
+	case string:
+		return &c04T{Op: "const", Name: "s:" + x}, true
+	case c04Nil:
+		return &c04T{Op: "const", Name: "nil"}, true
+	}
+	return nil, false
+}
+
+func c04IsSym(v any) bool {
+	switch v.(type) {
+	case c04SymV, c04Sym:
+		return true
+	}
+	return false
+}
+
+// mk wraps a term as a value, consulting the Resolve hook.
+func (ev *c04Eval) mk(t *c04T) any {
+	if ev.Resolve != nil {
+		if v, ok := ev.Resolve(t); ok {
+			return v
+		}
+	}
+	return c04SymV{T: t}
 }
 
 func (ev *c04Eval) get(fr *c04Frame, v ssa.Value) any {
@@ -190,19 +243,30 @@ func (ev *c04Eval) get(fr *c04Frame, v ssa.Value) any {
 		if g, ok := ev.Globals[x]; ok {
 			return c04Ptr{Cell: &c04Cell{V: g}}
 		}
-		return c04Poison{"global " + x.Name()}
+		return c04SymV{T: &c04T{Op: "addr-global", Name: c04GlobalName(x)}}
 	case *ssa.Function:
 		return x
 	}
 	if val, ok := fr.vals[v]; ok {
 		return val
 	}
+	if fr.region && ev.Outer != nil {
+		if val, ok := ev.Outer(v); ok {
+			fr.vals[v] = val
+			return val
+		}
+	}
 	return c04Poison{"undefined " + v.Name()}
 }
 
 func c04load(p c04Ptr) any {
 	v := p.Cell.V
-	for _, i := range p.Path {
+	for n, i := range p.Path {
+		if sv, isSym := v.(c04SymV); isSym && n < len(p.Names) {
+			// a field of a symbolic struct value (a struct parameter copied into a local)
+			v = c04SymV{T: &c04T{Op: "load", Name: p.Names[n], Args: []*c04T{sv.T}}}
+			continue
+		}
 		s, ok := v.(*c04Struct)
 		if !ok || i >= len(s.F) {
 			return c04Poison{"load through non-struct"}
@@ -245,8 +309,34 @@ func (ev *c04Eval) call(fn *ssa.Function, args []any) any {
 	for _, fv := range fn.FreeVars {
 		fr.vals[fv] = c04Poison{"free variable " + fv.Name()}
 	}
-	var prev *ssa.BasicBlock
-	b := fn.Blocks[0]
+	return ev.exec(fr, fn.Blocks[0], nil, nil)
+}
+
+// RunRegion evaluates fn from block start (whose phis take their values from
+// init) until the branch `stop` is reached and returns the value of its
+// condition. Values defined outside the region come from init or from Outer.
+func (ev *c04Eval) RunRegion(fn *ssa.Function, start *ssa.BasicBlock, init map[ssa.Value]any, stop *ssa.If) (res any, err error) {
+	defer func() {
+		if x := recover(); x != nil {
+			if e, ok := x.(*c04EvalError); ok {
+				err = e
+				return
+			}
+			panic(x)
+		}
+	}()
+	ev.steps = 0
+	fr := &c04Frame{fn: fn, vals: map[ssa.Value]any{}, region: true}
+	for k, v := range init {
+		fr.vals[k] = v
+	}
+	return ev.exec(fr, start, nil, stop), nil
+}
+
+// exec runs the frame from block b (entered from prev; nil = phis are preset).
+func (ev *c04Eval) exec(fr *c04Frame, b, prev *ssa.BasicBlock, stop *ssa.If) any {
+	fn := fr.fn
+	first := true
 	for {
 		var next *ssa.BasicBlock
 		// phis first, evaluated simultaneously
@@ -255,6 +345,9 @@ func (ev *c04Eval) call(fn *ssa.Function, args []any) any {
 			ph, ok := in.(*ssa.Phi)
 			if !ok {
 				break
+			}
+			if first && prev == nil && fr.region {
+				continue // preset by the caller of RunRegion
 			}
 			idx := -1
 			for i, pb := range b.Preds {
@@ -282,6 +375,14 @@ func (ev *c04Eval) call(fn *ssa.Function, args []any) any {
 				continue
 			case *ssa.If:
 				c := ev.get(fr, x.Cond)
+				if x == stop {
+					return c
+				}
+				if sv, isSym := c.(c04SymV); isSym && ev.Resolve != nil {
+					if rv, ok := ev.Resolve(sv.T); ok {
+						c = rv
+					}
+				}
 				bv, ok := c.(bool)
 				if !ok {
 					c04fail("%s: branch on a non-constant (%v)", fn.Name(), c04Describe(c))
@@ -332,6 +433,7 @@ func (ev *c04Eval) call(fn *ssa.Function, args []any) any {
 		if next == nil {
 			c04fail("%s: block without terminator", fn.Name())
 		}
+		first = false
 		prev, b = b, next
 	}
 }
@@ -340,6 +442,8 @@ func c04Describe(v any) string {
 	switch x := v.(type) {
 	case c04Poison:
 		return "not constant: " + x.Why
+	case c04SymV:
+		return "symbolic: " + x.T.Key()
 	case c04Int:
 		return fmt.Sprintf("%#x", x.V)
 	}
@@ -353,13 +457,22 @@ func (ev *c04Eval) value(fr *c04Frame, v ssa.Value) any {
 	case *ssa.FieldAddr:
 		b := ev.get(fr, x.X)
 		if p, ok := b.(c04Ptr); ok {
-			return c04Ptr{Cell: p.Cell, Path: append(append([]int(nil), p.Path...), x.Field)}
+			id := fieldIDOfAddr(x)
+			return c04Ptr{Cell: p.Cell, Path: append(append([]int(nil), p.Path...), x.Field), Names: append(append([]string(nil), p.Names...), id.Type+"."+id.Field)}
+		}
+		if bt, ok := c04ValTerm(b); ok && c04IsSym(b) {
+			id := fieldIDOfAddr(x)
+			return c04SymV{T: &c04T{Op: "addr", Name: id.Type + "." + id.Field, Args: []*c04T{bt}}}
 		}
 		return c04Poison{"field of unknown object"}
 	case *ssa.Field:
 		b := ev.get(fr, x.X)
 		if s, ok := b.(*c04Struct); ok && x.Field < len(s.F) {
 			return s.F[x.Field]
+		}
+		if bt, ok := c04ValTerm(b); ok && c04IsSym(b) {
+			id := fieldIDOfField(x)
+			return ev.mk(&c04T{Op: "load", Name: id.Type + "." + id.Field, Args: []*c04T{bt}})
 		}
 		return c04Poison{"field of unknown struct"}
 	case *ssa.UnOp:
@@ -368,6 +481,15 @@ func (ev *c04Eval) value(fr *c04Frame, v ssa.Value) any {
 		case token.MUL:
 			if p, ok := a.(c04Ptr); ok {
 				return c04load(p)
+			}
+			if sv, ok := a.(c04SymV); ok {
+				switch sv.T.Op {
+				case "addr":
+					return ev.mk(&c04T{Op: "load", Name: sv.T.Name, Args: sv.T.Args})
+				case "addr-global":
+					return ev.mk(&c04T{Op: "global", Name: sv.T.Name})
+				}
+				return ev.mk(&c04T{Op: "deref", Args: []*c04T{sv.T}})
 			}
 			return c04Poison{"load through unknown pointer"}
 		case token.NOT:
@@ -383,9 +505,21 @@ func (ev *c04Eval) value(fr *c04Frame, v ssa.Value) any {
 				return c04Int{V: c04mask(-i.V, i.Bits), Bits: i.Bits, Signed: i.Signed}
 			}
 		}
+		if c04IsSym(a) {
+			at, _ := c04ValTerm(a)
+			return ev.mk(&c04T{Op: "un:" + x.Op.String(), Args: []*c04T{at}})
+		}
 		return c04Poison{"unary " + x.Op.String() + " of non-constant"}
 	case *ssa.BinOp:
-		return c04BinOp(x.Op, ev.get(fr, x.X), ev.get(fr, x.Y), x.Type())
+		a, b := ev.get(fr, x.X), ev.get(fr, x.Y)
+		if c04IsSym(a) || c04IsSym(b) {
+			at, ok1 := c04ValTerm(a)
+			bt, ok2 := c04ValTerm(b)
+			if ok1 && ok2 {
+				return ev.mk(&c04T{Op: "bin:" + x.Op.String(), Args: []*c04T{at, bt}})
+			}
+		}
+		return c04BinOp(x.Op, a, b, x.Type())
 	case *ssa.Convert:
 		a := ev.get(fr, x.X)
 		if i, ok := a.(c04Int); ok {
@@ -396,6 +530,9 @@ func (ev *c04Eval) value(fr *c04Frame, v ssa.Value) any {
 				}
 				return c04Int{V: c04mask(val, bits), Bits: bits, Signed: signed}
 			}
+		}
+		if c04IsSym(a) {
+			return a
 		}
 		return c04Poison{"conversion of non-constant"}
 	case *ssa.ChangeType:
@@ -415,12 +552,38 @@ func (ev *c04Eval) value(fr *c04Frame, v ssa.Value) any {
 		if tt, ok := t.(c04Tuple); ok && x.Index < len(tt) {
 			return tt[x.Index]
 		}
+		if sv, ok := t.(c04SymV); ok {
+			if strings.HasPrefix(sv.T.Op, "tm:") {
+				if names, ok := c04DateTuple[strings.TrimPrefix(sv.T.Op, "tm:")]; ok && x.Index < len(names) {
+					return ev.mk(&c04T{Op: "tm:" + names[x.Index], Args: sv.T.Args[:1]})
+				}
+			}
+			return ev.mk(&c04T{Op: "extract", K: int64(x.Index), IsK: true, Args: []*c04T{sv.T}})
+		}
 		return c04Poison{"extract of non-constant"}
 	case *ssa.Call:
 		if b, ok := x.Call.Value.(*ssa.Builtin); ok {
 			if b.Name() == "len" && len(x.Call.Args) == 1 {
 				if s, ok := ev.get(fr, x.Call.Args[0]).(string); ok {
 					return c04MkInt(x.Type(), uint64(len(s)))
+				}
+			}
+			if (b.Name() == "min" || b.Name() == "max") && len(x.Call.Args) > 0 {
+				var best c04Int
+				okAll := true
+				for i, a := range x.Call.Args {
+					iv, ok := ev.get(fr, a).(c04Int)
+					if !ok {
+						okAll = false
+						break
+					}
+					less, _ := c04BinOp(token.LSS, iv, best, nil).(bool)
+					if i == 0 || (b.Name() == "min") == less {
+						best = iv
+					}
+				}
+				if okAll {
+					return best
 				}
 			}
 			return c04Poison{"builtin " + b.Name()}
@@ -449,7 +612,29 @@ func (ev *c04Eval) value(fr *c04Frame, v ssa.Value) any {
 					return strings.ToUpper(sargs[0])
 				case callee.Name() == "TrimSpace" && len(sargs) == 1:
 					return strings.TrimSpace(sargs[0])
+				case callee.Name() == "CutPrefix" && len(sargs) == 2:
+					after, found := strings.CutPrefix(sargs[0], sargs[1])
+					return c04Tuple{after, found}
+				case callee.Name() == "CutSuffix" && len(sargs) == 2:
+					before, found := strings.CutSuffix(sargs[0], sargs[1])
+					return c04Tuple{before, found}
+				case callee.Name() == "TrimPrefix" && len(sargs) == 2:
+					return strings.TrimPrefix(sargs[0], sargs[1])
 				}
+			}
+			// any other function without a body in the module: a symbolic application
+			var targs []*c04T
+			allOK := true
+			for _, a := range x.Call.Args {
+				at, ok := c04ValTerm(ev.get(fr, a))
+				if !ok {
+					allOK = false
+					break
+				}
+				targs = append(targs, at)
+			}
+			if allOK {
+				return ev.mk(c04ExtCallTerm(callee, targs))
 			}
 			return c04Poison{"call to " + callee.String()}
 		}
